@@ -1,4 +1,607 @@
 import SqliteDissect.Model.Page
 import SqliteDissect.Spec.PageFmt
 namespace SqliteDissect.Proofs.Layout
+open SqliteDissect SqliteDissect.Model
+
+/-! ## sorting -/
+
+theorem insertRegion_perm (r : Region) (l : List Region) : (insertRegion r l).Perm (r :: l) := by
+  induction l with
+  | nil => exact List.Perm.refl _
+  | cons x xs ih =>
+    unfold insertRegion
+    split
+    · exact List.Perm.refl _
+    · exact ((List.Perm.cons x ih).trans (List.Perm.swap r x xs))
+
+theorem insertRegion_sorted (r : Region) (l : List Region)
+    (h : l.Pairwise (fun a b => a.1 ≤ b.1)) :
+    (insertRegion r l).Pairwise (fun a b => a.1 ≤ b.1) := by
+  induction l with
+  | nil => simp [insertRegion]
+  | cons x xs ih =>
+    rw [List.pairwise_cons] at h
+    unfold insertRegion
+    split
+    · rename_i hlt
+      rw [List.pairwise_cons]
+      refine ⟨?_, List.pairwise_cons.mpr h⟩
+      intro b hb
+      rcases List.mem_cons.mp hb with hb | hb
+      · subst hb; omega
+      · have := h.1 b hb; omega
+    · rename_i hge
+      rw [List.pairwise_cons]
+      refine ⟨?_, ih h.2⟩
+      intro b hb
+      have hb' := (insertRegion_perm r xs).mem_iff.mp hb
+      rcases List.mem_cons.mp hb' with hb' | hb'
+      · subst hb'; omega
+      · exact h.1 b hb'
+
+theorem sortRegions_cons (r : Region) (l : List Region) :
+    sortRegions (r :: l) = insertRegion r (sortRegions l) := rfl
+
+theorem sortRegions_perm (rs : List Region) : (sortRegions rs).Perm rs := by
+  induction rs with
+  | nil => exact List.Perm.refl _
+  | cons r rs ih =>
+    rw [sortRegions_cons]
+    exact (insertRegion_perm r _).trans (List.Perm.cons r ih)
+
+theorem sortRegions_sorted (rs : List Region) :
+    (sortRegions rs).Pairwise (fun a b => a.1 ≤ b.1) := by
+  induction rs with
+  | nil => simp [sortRegions]
+  | cons r rs ih =>
+    rw [sortRegions_cons]
+    exact insertRegion_sorted r _ ih
+
+theorem sort_spec (rs : List Region) :
+    (sortRegions rs).Perm rs ∧ (sortRegions rs).Pairwise (fun a b => a.1 ≤ b.1) :=
+  ⟨sortRegions_perm rs, sortRegions_sorted rs⟩
+
+/-! ## sums -/
+
+/-- `foldl (·+·) 0` -/
+def isum (l : List Int) : Int := l.foldl (· + ·) 0
+
+theorem foldl_add_eq (l : List Int) (a : Int) :
+    l.foldl (· + ·) a = a + l.foldl (· + ·) 0 := by
+  induction l generalizing a with
+  | nil => simp
+  | cons x xs ih =>
+    simp only [List.foldl_cons]
+    rw [ih (a + x), ih (0 + x)]
+    omega
+
+theorem isum_nil : isum [] = 0 := rfl
+
+theorem isum_cons (x : Int) (l : List Int) : isum (x :: l) = x + isum l := by
+  unfold isum
+  simp only [List.foldl_cons]
+  rw [foldl_add_eq]
+  omega
+
+theorem isum_append (l₁ l₂ : List Int) : isum (l₁ ++ l₂) = isum l₁ + isum l₂ := by
+  induction l₁ with
+  | nil => simp [isum_nil]
+  | cons x xs ih => simp only [List.cons_append, isum_cons, ih]; omega
+
+theorem isum_reverse (l : List Int) : isum l.reverse = isum l := by
+  induction l with
+  | nil => rfl
+  | cons x xs ih =>
+    simp only [List.reverse_cons, isum_append, isum_cons, isum_nil, ih]; omega
+
+theorem isum_perm {l₁ l₂ : List Int} (h : l₁.Perm l₂) : isum l₁ = isum l₂ := by
+  induction h with
+  | nil => rfl
+  | cons x _ ih => simp only [isum_cons, ih]
+  | swap x y l => simp only [isum_cons]; omega
+  | trans _ _ ih₁ ih₂ => exact ih₁.trans ih₂
+
+/-- total size of a fragment list -/
+def fsum (l : List Fragment) : Int := isum (l.map Fragment.byteSize)
+
+theorem fsum_def (l : List Fragment) :
+    (l.map Fragment.byteSize).foldl (· + ·) 0 = fsum l := rfl
+
+theorem fsum_nil : fsum [] = 0 := rfl
+
+theorem fsum_cons (f : Fragment) (l : List Fragment) : fsum (f :: l) = f.byteSize + fsum l := by
+  unfold fsum; rw [List.map_cons, isum_cons]
+
+theorem fsum_append (l₁ l₂ : List Fragment) : fsum (l₁ ++ l₂) = fsum l₁ + fsum l₂ := by
+  unfold fsum; rw [List.map_append, isum_append]
+
+theorem fsum_reverse (l : List Fragment) : fsum l.reverse = fsum l := by
+  unfold fsum; rw [List.map_reverse, isum_reverse]
+
+theorem sumSizes_def (l : List Region) : Spec.sumSizes l = isum (l.map Spec.regionSize) := rfl
+
+theorem sumSizes_nil : Spec.sumSizes [] = 0 := rfl
+
+theorem sumSizes_cons (r : Region) (l : List Region) :
+    Spec.sumSizes (r :: l) = (r.2 - r.1) + Spec.sumSizes l := by
+  rw [sumSizes_def, List.map_cons, isum_cons]; rfl
+
+theorem sumSizes_perm {l₁ l₂ : List Region} (h : l₁.Perm l₂) :
+    Spec.sumSizes l₁ = Spec.sumSizes l₂ := by
+  rw [sumSizes_def, sumSizes_def]; exact isum_perm (h.map _)
+
+/-! ## the fragment loop -/
+
+theorem findFragments_sum (size : Int) (l : List Region) (last0 : Int) (idx : Nat)
+    (acc frags : List Fragment) (last : Int)
+    (h : findFragments size l last0 idx acc = .ok (frags, last)) :
+    fsum frags + Spec.sumSizes l = fsum acc + last - last0 := by
+  induction l generalizing last0 idx acc with
+  | nil =>
+    simp only [findFragments, Except.ok.injEq, Prod.mk.injEq] at h
+    obtain ⟨h1, h2⟩ := h
+    subst h1; subst h2
+    rw [fsum_reverse, sumSizes_nil]; omega
+  | cons r rest ih =>
+    unfold findFragments at h
+    by_cases hs : last0 ≥ size
+    · simp only [hs, if_true] at h; cases h
+    · simp only [hs, if_false] at h
+      by_cases hr : r.1 = last0
+      · simp only [hr, ne_eq, not_true_eq_false, if_false] at h
+        have := ih _ _ _ h
+        rw [sumSizes_cons]; omega
+      · simp only [hr, ne_eq, not_false_eq_true, if_true] at h
+        have := ih _ _ _ h
+        rw [fsum_cons] at this
+        simp only [Fragment.byteSize] at this
+        rw [sumSizes_cons]; omega
+
+theorem telescoping (size : Int) (sorted : List Region) (cs : Int) (frags : List Fragment) (last : Int)
+    (h : findFragments size sorted cs 0 [] = .ok (frags, last)) :
+    ((frags.map Fragment.byteSize).foldl (· + ·) 0) + Spec.sumSizes sorted = last - cs := by
+  have := findFragments_sum size sorted cs 0 [] frags last h
+  rw [fsum_def]; rw [fsum_nil] at this; omega
+
+/-! ## inversion of `layoutCheck` -/
+
+/-- the fragment list `layoutCheck` reports -/
+def finalFrags (regions : List Region) (size : Nat) (frags : List Fragment) (last : Int) : List Fragment :=
+  if regions ≠ [] ∧ last < (size : Int) then frags ++ [⟨frags.length, last, size⟩] else frags
+
+theorem layoutCheck_inv (strict : Bool) (size preface cs fragHdr : Nat) (regions : List Region)
+    (cellTotal fbTotal : Int) (L : LayoutResult)
+    (h : layoutCheck strict size preface cs fragHdr regions cellTotal fbTotal = .ok L) :
+    ∃ frags last, findFragments size (sortRegions regions) cs 0 [] = .ok (frags, last) ∧
+      L.fragments = finalFrags regions size frags last ∧
+      L.fragTotal = fsum L.fragments ∧
+      L.accounted = (preface : Int) + ((cs : Int) - preface) + (cellTotal + fbTotal + L.fragTotal) ∧
+      fragHdr ≤ 60 ∧
+      (strict = true → L.fragTotal = fragHdr ∧ L.accounted = size) := by
+  simp only [layoutCheck, bind, Except.bind, pure, Except.pure] at h
+  cases hf : findFragments (size : Int) (sortRegions regions) (cs : Int) 0 [] with
+  | error e => rw [hf] at h; cases h
+  | ok p =>
+    obtain ⟨frags, last⟩ := p
+    rw [hf] at h
+    simp only [Generated.PAGE_FRAGMENT_LIMIT] at h
+    refine ⟨frags, last, rfl, ?_⟩
+    have hF : finalFrags regions size frags last =
+        (if regions ≠ [] ∧ last < (size : Int) then frags ++ [⟨frags.length, last, size⟩] else frags) := rfl
+    generalize (if regions ≠ [] ∧ last < (size : Int) then frags ++ [⟨frags.length, last, size⟩] else frags) = F at h hF
+    rw [hF]
+    split at h
+    · cases h
+    · rename_i h60
+      split at h
+      · cases h
+      · rename_i hft
+        split at h
+        · cases h
+        · rename_i hacc
+          simp only [Except.ok.injEq] at h
+          subst h
+          refine ⟨rfl, rfl, rfl, by omega, ?_⟩
+          intro hs
+          subst hs
+          simp only [and_true, ne_eq, Decidable.not_not] at hft hacc
+          exact ⟨hft, hacc⟩
+
+theorem layoutCheck_intro (strict : Bool) (size preface cs fragHdr : Nat) (regions : List Region)
+    (cellTotal fbTotal : Int) (frags : List Fragment) (last : Int)
+    (hf : findFragments size (sortRegions regions) cs 0 [] = .ok (frags, last))
+    (h60 : fragHdr ≤ 60)
+    (hft : fsum (finalFrags regions size frags last) = fragHdr)
+    (hacc : (preface : Int) + ((cs : Int) - preface) +
+      (cellTotal + fbTotal + fsum (finalFrags regions size frags last)) = size) :
+    layoutCheck strict size preface cs fragHdr regions cellTotal fbTotal =
+      .ok ⟨finalFrags regions size frags last, fsum (finalFrags regions size frags last),
+        (preface : Int) + ((cs : Int) - preface) +
+          (cellTotal + fbTotal + fsum (finalFrags regions size frags last))⟩ := by
+  simp only [layoutCheck, bind, Except.bind, pure, Except.pure]
+  rw [hf]
+  simp only [Generated.PAGE_FRAGMENT_LIMIT]
+  have h60' : ¬ fragHdr > 60 := by omega
+  simp only [fsum, isum, finalFrags] at hft hacc ⊢
+  rw [if_neg h60']
+  rw [if_neg (by rw [hft]; simp), if_neg (by rw [hacc]; simp)]
+
+theorem strict_checks (size preface cs fragHdr : Nat) (regions : List Region) (cellTotal fbTotal : Int)
+    (L : LayoutResult)
+    (h : layoutCheck true size preface cs fragHdr regions cellTotal fbTotal = .ok L) :
+    L.fragTotal = fragHdr ∧ fragHdr ≤ 60 ∧
+      (preface : Int) + ((cs : Int) - preface) + (cellTotal + fbTotal + L.fragTotal) = size := by
+  obtain ⟨frags, last, _, _, _, hacc, h60, hs⟩ := layoutCheck_inv _ _ _ _ _ _ _ _ _ h
+  obtain ⟨h1, h2⟩ := hs rfl
+  exact ⟨h1, h60, by rw [← hacc]; exact h2⟩
+
+theorem strict_irrelevant (size preface cs fragHdr : Nat) (regions : List Region) (cellTotal fbTotal : Int)
+    (L : LayoutResult)
+    (h : layoutCheck true size preface cs fragHdr regions cellTotal fbTotal = .ok L) :
+    layoutCheck false size preface cs fragHdr regions cellTotal fbTotal = .ok L := by
+  obtain ⟨frags, last, hf, hfr, hft, hacc, h60, hs⟩ := layoutCheck_inv _ _ _ _ _ _ _ _ _ h
+  obtain ⟨h1, h2⟩ := hs rfl
+  have := layoutCheck_intro false size preface cs fragHdr regions cellTotal fbTotal frags last hf h60
+    (by rw [← hfr, ← hft]; exact h1) (by rw [← hfr, ← hft, ← hacc]; exact h2)
+  rw [this]
+  cases L
+  simp only at hfr hft hacc
+  subst hfr
+  subst hft
+  subst hacc
+  rfl
+
+/-! ## well-formed layouts -/
+
+/-- regions in address order from `lo`, without overlap, each non-empty, all below `size` -/
+def OrdChain (size : Int) : Int → List Region → Prop
+  | lo, [] => lo ≤ size
+  | lo, r :: rest => lo ≤ r.1 ∧ r.1 < r.2 ∧ r.2 ≤ size ∧ OrdChain size r.2 rest
+
+theorem ordChain_of_pairwise (size : Int) (l : List Region) (lo : Int) (hlo : lo ≤ size)
+    (hp : l.Pairwise (fun a b => a.2 ≤ b.1))
+    (hm : ∀ r ∈ l, r.1 < r.2 ∧ lo ≤ r.1 ∧ r.2 ≤ size) : OrdChain size lo l := by
+  induction l generalizing lo with
+  | nil => exact hlo
+  | cons r rest ih =>
+    rw [List.pairwise_cons] at hp
+    have hr := hm r (List.mem_cons_self)
+    refine ⟨hr.2.1, hr.1, hr.2.2, ih r.2 hr.2.2 hp.2 ?_⟩
+    intro r' hr'
+    have h1 := hm r' (List.mem_cons_of_mem _ hr')
+    exact ⟨h1.1, hp.1 r' hr', h1.2.2⟩
+
+theorem ordChain_sorted {size cs fragHdr : Nat} {regions : List Region}
+    (hw : Spec.WellFormedLayout size cs fragHdr regions) :
+    OrdChain size cs (sortRegions regions) := by
+  have hperm := sortRegions_perm regions
+  have hmem : ∀ r ∈ sortRegions regions, r.1 < r.2 ∧ (cs : Int) ≤ r.1 ∧ r.2 ≤ (size : Int) := by
+    intro r hr
+    have hr' := hperm.mem_iff.mp hr
+    exact ⟨hw.nonempty r hr', hw.inside r hr'⟩
+  have hdis : (sortRegions regions).Pairwise (fun a b : Region => a.2 ≤ b.1 ∨ b.2 ≤ a.1) := by
+    refine (List.Perm.pairwise_iff ?_ hperm).mpr hw.disjoint
+    intro a b hab
+    exact hab.symm
+  have hboth := (sortRegions_sorted regions).and hdis
+  apply ordChain_of_pairwise
+  · have := hw.cs_le; omega
+  · refine List.Pairwise.imp_of_mem ?_ hboth
+    intro a b ha hb hab
+    have h1 := (hmem a ha).1
+    have h2 := (hmem b hb).1
+    omega
+  · exact hmem
+
+theorem findFragments_ordChain (size : Int) (l : List Region) (lo : Int) (idx : Nat)
+    (acc : List Fragment) (h : OrdChain size lo l) :
+    ∃ frags last, findFragments size l lo idx acc = .ok (frags, last) ∧ last ≤ size ∧
+      (l = [] → last = lo) := by
+  induction l generalizing lo idx acc with
+  | nil => exact ⟨acc.reverse, lo, rfl, h, fun _ => rfl⟩
+  | cons r rest ih =>
+    obtain ⟨h1, h2, h3, h4⟩ := h
+    unfold findFragments
+    have hs : ¬ lo ≥ size := by omega
+    simp only [hs, if_false]
+    by_cases hr : r.1 = lo
+    · simp only [hr, ne_eq, not_true_eq_false, if_false]
+      obtain ⟨frags, last, e, hl, _⟩ := ih r.2 idx acc h4
+      exact ⟨frags, last, e, hl, fun hn => by cases hn⟩
+    · simp only [hr, ne_eq, not_false_eq_true, if_true]
+      obtain ⟨frags, last, e, hl, _⟩ := ih r.2 (idx + 1) _ h4
+      exact ⟨frags, last, e, hl, fun hn => by cases hn⟩
+
+theorem tiling_chain (size : Int) (l : List Region) (lo : Int) (h : OrdChain size lo l) :
+    Spec.Chain lo (Spec.tiling size l lo) size ∧ ∀ g ∈ Spec.tiling size l lo, g.1 < g.2 := by
+  induction l generalizing lo with
+  | nil =>
+    have h : lo ≤ size := h
+    unfold Spec.tiling
+    by_cases hl : lo < size
+    · simp only [hl, if_true]
+      refine ⟨⟨rfl, rfl⟩, ?_⟩
+      intro g hg
+      rw [List.mem_singleton] at hg
+      subst hg; exact hl
+    · simp only [hl, if_false]
+      refine ⟨?_, ?_⟩
+      · show lo = size
+        omega
+      · intro g hg; cases hg
+  | cons r rest ih =>
+    obtain ⟨h1, h2, h3, h4⟩ := h
+    obtain ⟨ihc, ihp⟩ := ih r.2 h4
+    unfold Spec.tiling
+    by_cases hr : r.1 = lo
+    · simp only [hr, ne_eq, not_true_eq_false, if_false, List.nil_append]
+      refine ⟨⟨hr, ihc⟩, ?_⟩
+      intro g hg
+      rcases List.mem_cons.mp hg with hg | hg
+      · subst hg; exact h2
+      · exact ihp g hg
+    · simp only [hr, ne_eq, not_false_eq_true, if_true, List.cons_append, List.nil_append]
+      refine ⟨⟨rfl, rfl, ihc⟩, ?_⟩
+      intro g hg
+      rcases List.mem_cons.mp hg with hg | hg
+      · subst hg
+        show lo < r.1
+        omega
+      · rcases List.mem_cons.mp hg with hg | hg
+        · subst hg; exact h2
+        · exact ihp g hg
+
+/-- region covered by a fragment -/
+def fragRegion (f : Fragment) : Region := (f.start, f.end_)
+
+theorem tiling_perm (size : Int) (l : List Region) (last0 : Int) (idx : Nat)
+    (acc frags : List Fragment) (last : Int)
+    (h : findFragments size l last0 idx acc = .ok (frags, last)) :
+    ∃ new, frags = acc.reverse ++ new ∧
+      (Spec.tiling size l last0).Perm
+        (l ++ (new.map fragRegion ++ (if last < size then [(last, size)] else []))) := by
+  induction l generalizing last0 idx acc with
+  | nil =>
+    simp only [findFragments, Except.ok.injEq, Prod.mk.injEq] at h
+    obtain ⟨h1, h2⟩ := h
+    subst h1; subst h2
+    refine ⟨[], by simp, ?_⟩
+    unfold Spec.tiling
+    simp only [List.map_nil, List.nil_append]
+    exact List.Perm.refl _
+  | cons r rest ih =>
+    unfold findFragments at h
+    by_cases hs : last0 ≥ size
+    · simp only [hs, if_true] at h; cases h
+    · simp only [hs, if_false] at h
+      by_cases hr : r.1 = last0
+      · simp only [hr, ne_eq, not_true_eq_false, if_false] at h
+        obtain ⟨new, e, hp⟩ := ih _ _ _ h
+        refine ⟨new, e, ?_⟩
+        unfold Spec.tiling
+        simp only [hr, ne_eq, not_true_eq_false, if_false, List.nil_append, List.cons_append]
+        exact List.Perm.cons r hp
+      · simp only [hr, ne_eq, not_false_eq_true, if_true] at h
+        obtain ⟨new, e, hp⟩ := ih _ _ _ h
+        refine ⟨⟨idx, last0, r.1⟩ :: new, ?_, ?_⟩
+        · rw [e]; simp
+        · unfold Spec.tiling
+          simp only [hr, ne_eq, not_false_eq_true, if_true, List.nil_append, List.cons_append,
+            List.map_cons]
+          refine (List.Perm.swap _ _ _).trans (List.Perm.cons r ?_)
+          refine (List.Perm.cons _ hp).trans ?_
+          exact (List.perm_middle).symm
+
+theorem finalFrags_sum {size cs fragHdr : Nat} {regions : List Region}
+    (hw : Spec.WellFormedLayout size cs fragHdr regions) (frags : List Fragment) (last : Int)
+    (hf : findFragments size (sortRegions regions) cs 0 [] = .ok (frags, last)) :
+    last ≤ size ∧ (regions = [] → ¬ last < (size : Int)) ∧
+    fsum (finalFrags regions size frags last) = fragHdr := by
+  obtain ⟨frags', last', hf', hl, hnil⟩ :=
+    findFragments_ordChain size (sortRegions regions) cs 0 [] (ordChain_sorted hw)
+  rw [hf] at hf'
+  simp only [Except.ok.injEq, Prod.mk.injEq] at hf'
+  obtain ⟨e1, e2⟩ := hf'
+  subst e1; subst e2
+  have hnil' : regions = [] → ¬ last < (size : Int) := by
+    intro hn
+    have := hnil (by rw [hn]; rfl)
+    have := hw.empty_page hn
+    omega
+  refine ⟨hl, hnil', ?_⟩
+  have ht := findFragments_sum size (sortRegions regions) cs 0 [] frags last hf
+  rw [fsum_nil, sumSizes_perm (sortRegions_perm regions)] at ht
+  have hc := hw.fragcount
+  unfold finalFrags
+  by_cases hlt : last < (size : Int)
+  · have hne : regions ≠ [] := fun hn => hnil' hn hlt
+    rw [if_pos ⟨hne, hlt⟩, fsum_append, fsum_cons, fsum_nil]
+    simp only [Fragment.byteSize]
+    omega
+  · rw [if_neg (fun hc => hlt hc.2)]
+    omega
+
+theorem accepts_wellformed (strict : Bool) (size preface cs fragHdr : Nat) (regions : List Region)
+    (cellTotal fbTotal : Int)
+    (hw : Spec.WellFormedLayout size cs fragHdr regions)
+    (_hpre : preface ≤ cs) (htot : cellTotal + fbTotal = Spec.sumSizes regions) :
+    ∃ L, layoutCheck strict size preface cs fragHdr regions cellTotal fbTotal = .ok L ∧
+      L.fragTotal = fragHdr ∧ L.accounted = size := by
+  obtain ⟨frags, last, hf, _, _⟩ :=
+    findFragments_ordChain size (sortRegions regions) cs 0 [] (ordChain_sorted hw)
+  obtain ⟨_, _, hsum⟩ := finalFrags_sum hw frags last hf
+  have hacc : (preface : Int) + ((cs : Int) - preface) +
+      (cellTotal + fbTotal + fsum (finalFrags regions size frags last)) = size := by
+    rw [hsum, htot]
+    have := hw.fragcount
+    omega
+  refine ⟨_, layoutCheck_intro strict size preface cs fragHdr regions cellTotal fbTotal frags last hf
+    hw.fraglimit hsum hacc, hsum, hacc⟩
+
+theorem tiles (strict : Bool) (size preface cs fragHdr : Nat) (regions : List Region)
+    (cellTotal fbTotal : Int) (L : LayoutResult)
+    (hw : Spec.WellFormedLayout size cs fragHdr regions)
+    (h : layoutCheck strict size preface cs fragHdr regions cellTotal fbTotal = .ok L) :
+    let t := Spec.tiling size (sortRegions regions) cs
+    Spec.Chain cs t size ∧ (∀ g ∈ t, g.1 < g.2) ∧
+      t.Perm (sortRegions regions ++ L.fragments.map fun f => (f.start, f.end_)) := by
+  intro t
+  obtain ⟨hc, hp⟩ := tiling_chain size (sortRegions regions) cs (ordChain_sorted hw)
+  refine ⟨hc, hp, ?_⟩
+  obtain ⟨frags, last, hf, hfr, _⟩ := layoutCheck_inv _ _ _ _ _ _ _ _ _ h
+  obtain ⟨_, hnil, _⟩ := finalFrags_sum hw frags last hf
+  obtain ⟨new, e, hperm⟩ := tiling_perm size (sortRegions regions) cs 0 [] frags last hf
+  simp only [List.reverse_nil, List.nil_append] at e
+  subst e
+  rw [hfr]
+  refine hperm.trans ?_
+  unfold finalFrags
+  by_cases hlt : last < (size : Int)
+  · have hne : regions ≠ [] := fun hn => hnil hn hlt
+    have hboth : regions ≠ [] ∧ last < (size : Int) := ⟨hne, hlt⟩
+    simp only [if_pos hlt, if_pos hboth, List.map_append, List.map_cons, List.map_nil]
+    exact List.Perm.refl _
+  · have hboth : ¬ (regions ≠ [] ∧ last < (size : Int)) := fun hc => hlt hc.2
+    simp only [if_neg hlt, if_neg hboth, List.append_nil]
+    exact List.Perm.refl _
+
+theorem example_wellformed :
+    Spec.WellFormedLayout 200 100 5 [(100, 130), (132, 150), (150, 197)] where
+  cs_le := by decide
+  nonempty := by decide
+  inside := by decide
+  disjoint := by decide
+  fragcount := by decide
+  fraglimit := by decide
+  empty_page := by intro h; cases h
+
+/-! ## freeblock walk -/
+
+theorem slice_WF (b : Buf) (hb : b.WF) (lo hi : Nat) : (b.slice lo hi).WF := by
+  intro i hi'
+  simp only [Buf.slice] at hi' ⊢
+  apply hb
+  omega
+
+theorem pySlice_WF (b : Buf) (hb : b.WF) (lo hi : Int) : (pySlice b lo hi).WF := by
+  unfold pySlice
+  exact slice_WF b hb _ _
+
+theorem beN2_lt (s : Buf) (hs : s.WF) (h2 : s.size = 2) : s.beN 0 2 < 65536 := by
+  have h0 := hs 0 (by omega)
+  have h1 := hs 1 (by omega)
+  simp only [Buf.beN, Nat.zero_add, Nat.add_zero]
+  omega
+
+theorem unpackAt_err (b : Buf) (lo : Int) (n : Nat) (e : PyErr)
+    (h : unpackAt b lo n = .error e) : e = .structError := by
+  unfold unpackAt at h
+  simp only at h
+  split at h
+  · cases h
+  · cases h; rfl
+
+theorem unpackAt2_lt (b : Buf) (hb : b.WF) (lo : Int) (v : Nat)
+    (h : unpackAt b lo 2 = .ok v) : v < 65536 := by
+  unfold unpackAt at h
+  simp only at h
+  split at h
+  · rename_i hsz
+    simp only [Except.ok.injEq] at h
+    subst h
+    exact beN2_lt _ (pySlice_WF b hb _ _) hsz
+  · cases h
+
+theorem parseFreeblock_cases (page : Buf) (hb : page.WF) (idx off : Nat) :
+    parseFreeblock page idx off = .error .structError ∨
+    ∃ next sz, parseFreeblock page idx off = .ok ⟨idx, off, next, sz⟩ ∧ next < 65536 := by
+  simp only [parseFreeblock, bind, Except.bind, pure, Except.pure,
+    Generated.NEXT_FREEBLOCK_OFFSET_LENGTH, Generated.FREEBLOCK_BYTE_LENGTH]
+  cases h1 : unpackAt page (off : Int) 2 with
+  | error e => left; rw [unpackAt_err _ _ _ _ h1]
+  | ok next =>
+    simp only
+    cases h2 : unpackAt page ((off : Int) + ((2 : Nat) : Int)) 2 with
+    | error e => left; rw [unpackAt_err _ _ _ _ h2]
+    | ok sz => right; exact ⟨next, sz, rfl, unpackAt2_lt page hb _ _ h1⟩
+
+theorem walk_no_rec (page : Buf) (hb : page.WF) (fuel idx off : Nat) (acc : List Freeblock)
+    (h1 : 1 ≤ fuel) (h2 : 65536 - off ≤ fuel) :
+    freeblockWalk page fuel idx off acc ≠ .error .recursionError := by
+  induction fuel generalizing idx off acc with
+  | zero => omega
+  | succ fuel ih =>
+    unfold freeblockWalk
+    simp only [bind, Except.bind, pure, Except.pure]
+    rcases parseFreeblock_cases page hb idx off with hp | ⟨next, sz, hp, hn⟩
+    · rw [hp]; simp
+    · rw [hp]
+      simp only
+      by_cases hz : next = 0
+      · simp [hz]
+      · simp only [hz, if_false]
+        by_cases hle : next ≤ off
+        · simp [hle]
+        · simp only [hle, if_false]
+          exact ih _ _ _ (by omega) (by omega)
+
+theorem freeblock_walk_bounded (page : Buf) (hb : page.WF) (first : Nat) :
+    freeblockWalk page 65537 0 first [] ≠ .error .recursionError :=
+  walk_no_rec page hb 65537 0 first [] (by omega) (by omega)
+
+theorem walk_spec (page : Buf) (hb : page.WF) (fuel idx off : Nat) (acc fbs : List Freeblock)
+    (h : freeblockWalk page fuel idx off acc = .ok fbs) :
+    ∃ new, fbs = acc.reverse ++ new ∧
+      new.Pairwise (fun a b => a.start < b.start) ∧
+      (∀ f ∈ new, f.start = off ∨ (off < f.start ∧ f.start < 65536)) ∧
+      new.length + min off 65535 ≤ 65536 := by
+  induction fuel generalizing idx off acc with
+  | zero => unfold freeblockWalk at h; cases h
+  | succ fuel ih =>
+    unfold freeblockWalk at h
+    simp only [bind, Except.bind, pure, Except.pure] at h
+    rcases parseFreeblock_cases page hb idx off with hp | ⟨next, sz, hp, hn⟩
+    · rw [hp] at h; cases h
+    · rw [hp] at h
+      simp only at h
+      by_cases hz : next = 0
+      · simp only [hz, if_true, Except.ok.injEq] at h
+        subst h
+        refine ⟨[⟨idx, off, 0, sz⟩], by simp, by simp, ?_, ?_⟩
+        · intro f hf
+          rw [List.mem_singleton] at hf
+          subst hf; left; rfl
+        · simp only [List.length_singleton]; omega
+      · simp only [hz, if_false] at h
+        by_cases hle : next ≤ off
+        · simp only [hle, if_true] at h; cases h
+        · simp only [hle, if_false] at h
+          obtain ⟨new, e, hpw, hmem, hlen⟩ := ih _ _ _ h
+          refine ⟨⟨idx, off, next, sz⟩ :: new, ?_, ?_, ?_, ?_⟩
+          · rw [e]; simp
+          · rw [List.pairwise_cons]
+            refine ⟨?_, hpw⟩
+            intro f hf
+            have := hmem f hf
+            show off < f.start
+            omega
+          · intro f hf
+            rcases List.mem_cons.mp hf with hf | hf
+            · subst hf; left; rfl
+            · have := hmem f hf
+              right; omega
+          · simp only [List.length_cons]; omega
+
+theorem freeblock_walk_ascending (page : Buf) (hb : page.WF) (first : Nat) (fbs : List Freeblock)
+    (h : freeblockWalk page 65537 0 first [] = .ok fbs) :
+    fbs.Pairwise (fun a b => a.start < b.start) ∧ fbs.length ≤ 65536 ∧
+      (∀ f ∈ fbs, f.start < 65536 ∨ f.start = first) := by
+  obtain ⟨new, e, hpw, hmem, hlen⟩ := walk_spec page hb _ _ _ _ _ h
+  simp only [List.reverse_nil, List.nil_append] at e
+  subst e
+  refine ⟨hpw, by omega, ?_⟩
+  intro f hf
+  have := hmem f hf
+  omega
+
 end SqliteDissect.Proofs.Layout
